@@ -55,8 +55,8 @@ func sqlC03(args []string) error {
 	}
 	nscen, _ := strconv.Atoi(args[1])
 	ctx := args[2]
-	rng := rand.New(rand.NewSource(envSeed()))
-	for sc := 0; sc < nscen; sc++ {
+	for sc := envStart(); sc < nscen; sc++ {
+		rng := scenarioRng(sc)
 		s, err := newRun(tw, ctx, 600)
 		if err != nil {
 			return err
